@@ -82,6 +82,9 @@ class CounterStyle(dict):
 
             # Handle extends
             while extends:
+                if system not in self and 'decimal' in self:
+                    # Extending an undefined style is extending decimal
+                    system = 'decimal'
                 if system in self:
                     extended_name = system
                     extended_counter = self[system]
